@@ -155,6 +155,7 @@ type Kernel struct {
 	cur     int // task the kernel released last (client task = call index, server task = 1000+conn id)
 	curCall *CallState
 	mockIdx int
+	optCache map[string]any
 
 	// Server-side observations
 	ServerPanics int
